@@ -13,6 +13,7 @@ from pbt.core import harness as H
 from pbt.core import modelgen as M
 from pbt.core import docgen as D
 from pbt.core import refofx as X
+from pbt.core import reftypes as R
 
 PID = "C17"
 LEVEL = "exploration"
@@ -100,6 +101,15 @@ def run_item(item, held=None):
                 if tree_snapshot(tree) != snap:
                     bad.append("from_etree modified the element tree")
                 return ["dirtytree", M.dump(model)], bad
+            if kind == "introspect":
+                cls = M.universe()[item["cls"]]
+                for c in reversed(cls.__mro__):
+                    for prop in ("spec", "elements", "subaggregates", "listaggregates", "unsupported"):
+                        getattr(c, prop, None)
+                return ["introspect", list(cls.spec.keys()), list(cls.spec_no_listaggregates.keys())], bad
+            if kind == "typewrite":
+                T = {"DateTime": Types.DateTime, "Time": Types.Time, "Decimal": Types.Decimal}[item["type"]]()
+                return ["typewrite", T.unconvert(M.untag(item["value"]))], bad
             if kind == "type":
                 T = {"DateTime": Types.DateTime, "Time": Types.Time, "Decimal": Types.Decimal, "Integer": Types.Integer, "Bool": Types.Bool, "String": Types.String}[item["type"]]()
                 v = T.convert(item["text"])
@@ -137,9 +147,33 @@ def held_state(inst):
         return state
 
 
+def eval_fresh(item):
+    """Result of one item in a brand-new interpreter (no history at all)."""
+    import json
+    import subprocess
+
+    p = subprocess.run([sys.executable, "-m", "pbt.checks.c17", "--eval"], input=json.dumps(item), capture_output=True, text=True, cwd=str(H.VERIF), timeout=600)
+    if p.returncode != 0:
+        raise H.HarnessError(f"fresh interpreter failed: {p.stderr[-400:]}")
+    return json.loads(p.stdout.strip().splitlines()[-1])
+
+
 def check_case(case):
     H.setup_path()
     out = []
+    if case["kind"] == "history" and case.get("fresh"):
+        # the history runs BEFORE the probe is evaluated for the first time in this process; the reference is the
+        # probe evaluated in a fresh interpreter
+        probe, hist = case["probe"], case["history"]
+        for it in hist:
+            run_item(it)
+        r_in, bad = run_item(probe)
+        import json
+
+        r_fresh = eval_fresh(probe)
+        if json.loads(H.canon(r_in)) != json.loads(H.canon(r_fresh)):
+            out.append((f"result-differs-from-fresh-interpreter/{probe['kind']}", f"{probe.get('inst', {}).get('cls', probe.get('type', probe.get('cls')))}: after history {H.canon(r_in)[:200]} ; fresh {H.canon(r_fresh)[:200]}"))
+        return out
     if case["kind"] == "history":
         probe, hist = case["probe"], case["history"]
         inst = None
@@ -245,15 +279,54 @@ def item_st(cls_names):
                 return {"kind": "fail", "ob": obs[draw(st.integers(0, len(obs) - 1))]}
             return {"kind": "type", "type": "DateTime", "text": "20200101"}
         if k == 8:
+            if draw(st.booleans()):
+                return {"kind": "introspect", "cls": name}
             return {"kind": "badbody", "text": draw(st.sampled_from(BAD_BODIES))}
         return {"kind": "dirtytree", "inst": draw(M.instance_st(U[name], max_members=2, markup=False)), "ins": draw(st.lists(st.tuples(st.integers(0, 40), st.integers(0, 12), st.integers(0, 4), st.integers(0, 30)).map(list), min_size=1, max_size=3))}
 
     return _item
 
 
+@st.composite
+def twin_items(draw, names):
+    """(probe, predecessor): two items whose inputs compare equal but are written differently."""
+    from pbt.checks.c10 import aware_dt, dec_text
+    import datetime as dt
+
+    U = M.universe()
+    which = draw(st.integers(0, 3))
+    if which == 0:
+        txt = format(R.decimal_from_text(draw(dec_text(max_int=6, max_frac=3))), "f")
+        twin = txt + ("0" if "." in txt else ".0")
+        a, b = ["dec", txt], ["dec", twin]
+        if draw(st.booleans()):
+            a, b = b, a
+        return {"kind": "typewrite", "type": "Decimal", "value": a}, {"kind": "typewrite", "type": "Decimal", "value": b}
+    if which == 1:
+        v = draw(aware_dt())
+        a = M.untag(v)
+        off2 = draw(st.integers(-720, 840).filter(lambda o: o != v[8]))
+        b = a.astimezone(dt.timezone(dt.timedelta(minutes=off2)))
+        if not (1900 <= b.year <= 2200):
+            off2 = 0 if v[8] else 60
+            b = a.astimezone(dt.timezone(dt.timedelta(minutes=off2)))
+        w = ["dt", b.year, b.month, b.day, b.hour, b.minute, b.second, b.microsecond, off2, None]
+        return {"kind": "typewrite", "type": "DateTime", "value": w}, {"kind": "typewrite", "type": "DateTime", "value": v}
+    # whole instances
+    name = draw(st.sampled_from(names))
+    d = draw(M.instance_st(U[name], max_members=2))
+    t, n = M.twin_desc(d)
+    form = draw(st.integers(0, 5))
+    return {"kind": "wire", "inst": t, "form": form}, {"kind": "wire", "inst": d, "form": form}
+
+
 def _labels_hist(case):
     kinds = {it["kind"] for it in case["history"]} | {case["probe"]["kind"]}
     labs = ["history-len:%d" % len(case["history"])] + ["kind:" + k for k in sorted(kinds)]
+    if case.get("fresh"):
+        labs.append("compared with a fresh interpreter")
+    if case["probe"]["kind"] == "typewrite" or (case.get("fresh") and case["history"] and case["history"][0].get("kind") == case["probe"]["kind"] == "wire"):
+        labs.append("history holds an equal-comparing twin of the probe's values")
     pc = case["probe"].get("inst", {}).get("cls")
     if pc and any(it.get("inst", {}).get("cls") == pc for it in case["history"]):
         labs.append("history contains the probe's class")
@@ -272,16 +345,28 @@ def _hist_worker(job):
 
     @st.composite
     def case(draw):
+        scenario = draw(st.integers(0, 9))
+        if scenario <= 2:
+            # equal-but-distinguishable twins: the history processes a value that compares equal to the probe's
+            probe, first = draw(twin_items(names))
+            hist = [first] + [draw(mk()) for _ in range(draw(st.integers(0, 2)))]
+            return {"kind": "history", "probe": probe, "history": hist, "fresh": True}
         probe = draw(mk())
-        pc = probe.get("inst", {}).get("cls")
+        pc = probe.get("inst", {}).get("cls") or probe.get("cls")
         hist = []
         for i in range(draw(st.integers(0, 6))):
             hist.append(draw(mk(force_cls=pc if (pc and i % 2 == 0) else None)))
-        return {"kind": "history", "probe": probe, "history": hist, "repeat": draw(st.integers(1, 3))}
+        if pc and scenario == 3:
+            # a schema walk over the probe's class hierarchy precedes it
+            hist.insert(0, {"kind": "introspect", "cls": pc})
+        c = {"kind": "history", "probe": probe, "history": hist, "repeat": draw(st.integers(1, 3))}
+        if scenario in (3, 4, 5):
+            c["fresh"] = True
+        return c
 
     def body(c):
         labs = _labels_hist(c)
-        nontrivial = len({it["kind"] for it in c["history"]}) >= 2 and "history contains the probe's class" in labs
+        nontrivial = (len({it["kind"] for it in c["history"]}) >= 2 and "history contains the probe's class" in labs) or bool(c.get("fresh") and c["history"])
         s.case(c, nontrivial=nontrivial, labels=labs)
         for k, d in check_case(c):
             s.fail(k, c, d)
@@ -320,3 +405,13 @@ def run(ctx):
     ctx.pmap(_hist_worker, [(names[i::16], nh, ctx.sub_seed("h", i)) for i in range(16)])
     nt = ctx.scale(8, 80)
     ctx.pmap(_thread_worker, [(names[i::16], nt, ctx.sub_seed("t", i)) for i in range(16)])
+
+
+if __name__ == "__main__":
+    if "--eval" in sys.argv:
+        import json
+
+        H.setup_path()
+        item = json.loads(sys.stdin.read())
+        res, _ = run_item(item)
+        print(H.canon(res))
